@@ -317,7 +317,7 @@ Proof.
     destruct (broadcast n3 _ _) as [m fx]. exact G. }
   destruct (if (n_next_peers n3 <=? now)%Z then _ else _) as [n4 fx4]. cbn [fst] in H4.
   pose proof (reconnect_step_se salts now n4 H4) as H5. destruct (reconnect_step salts now n4) as [n5 fx5]. cbn [fst] in *.
-  destruct (n_next_own_reset n5 <=? now)%Z; exact H5.
+  destruct (negb (c_hkfault (n_cfg n5)) && (n_next_own_reset n5 <=? now)%Z); exact H5.
 Qed.
 
 Theorem step_se : forall salts now n e, ND n -> SE n -> SE (fst (step salts now n e)).
